@@ -12,6 +12,7 @@ P3    == {"p1", "p2", "p3"}
 PS2   == "p1" :> <<"p2">> @@ "p2" :> <<"p1">>
 PS3   == "p1" :> <<"p2", "p3">> @@ "p2" :> <<"p1", "p3">> @@ "p3" :> <<"p1", "p2">>
 None  == {}
+NS2   == {"p2"}
 AclS  == {"acl"}
 KvS   == {"kv"}
 T1    == {"t1"}
@@ -29,6 +30,7 @@ Bl   == B(1, 2, 1, 0, 0)
 Bp3  == B(1, 1, 0, 1, 0)
 Bp3d == B(1, 1, 1, 0, 0)
 Blt  == B(2, 2, 1, 1, 0)
+Bpush == B(1, 2, 1, 1, 0)
 Bg   == B(3, 4, 1, 2, 1)
 Bg3  == B(4, 5, 2, 2, 1)
 DevExists   == {"NoExistsCheck"}
